@@ -28,7 +28,9 @@ from ._shared import optional_int_rule
 
 LEVEL_TEXT = (
     "Static decision of the quoting layer and framing constants behind C06, on symbolic summaries of the functions "
-    "(path condition -> returned term; private helpers inlined, loops abstracted), independent of how they are spelled: "
+    "(path condition -> returned term; private helpers inlined, loops abstracted; a private generator helper is read as "
+    "the loop that produces its items - fused into the loop that consumes it, or as the list of what it yields - and a "
+    "two-entry table indexed by a truth value as the choice between its entries), independent of how they are spelled: "
     "(R6.1) the alphabet that quote_header_value leaves unquoted is contained in RFC tchar and in every option parser's "
     "token class and disjoint from all separators, and the bare return is taken only under that test; (R6.2) on every "
     "string up to length 4 over {backslash, quote, letter, ';', ',', space, and every character a rewriting constant "
@@ -63,7 +65,7 @@ TRUSTED = [
     "CPython ast and re._parser; semantics of builtin str / bytes / frozenset methods and of `re` applied to constants folded from the source",
     "RFC 9110 section 5.6.2 token / 5.6.4 quoted-string tables embedded as constants",
     "urllib.request.parse_http_list keeps the quotes of a quoted item and drops the backslash of an escaped character inside them",
-    "the Machine of _c06_helpers (R6.7 / R6.8): its reading of Python statements and expressions over constants; it never imports the package - functions and classes of werkzeug exist only as syntax trees, instances as attribute records",
+    "the Machine of _c06_helpers (R6.7 / R6.8): its reading of Python statements and expressions over constants; it never imports the package - functions and classes of werkzeug exist only as syntax trees, instances as attribute records, generator functions as bodies suspended at their yields (resumed strictly in turn with their consumer)",
 ]
 ASSUMPTIONS = ["keys are tokens free of '*' (as the property states)", "option values do not contain the literal %22"]
 
@@ -265,10 +267,18 @@ def run(ctx: Ctx) -> None:
         if (a_, b_) != ("%22", '"'):
             po_alpha |= set(a_) | set(b_)
     po_smp = H.samples(po_alpha, 3)
-    kvs = _item_outcomes(PO, lambda i: i[0] == "kv")
+
+    def scanned_pairs(PO_: Summary) -> tuple[list[H.Outcome], list[Term]]:
+        kvs_ = _item_outcomes(PO_, lambda i: i[0] == "kv")
+        return kvs_, [x for x in _its(walk(tuple((o.term, o.conds) for o in kvs_))) if coll_items(x[1]) and all(i[0] == "tuple" and len(i[1]) == 2 for _, i in coll_items(x[1]))]  # type: ignore[union-attr]
+
+    kvs, pair_its = scanned_pairs(PO)
+    if len(pair_its) != 1 and sums.generators_read:
+        # the scanner may sit in a generator helper: the value step is the loop over what that helper produces, so the
+        # helper is read as the function returning the list of scanned pairs (not fused into the consuming loop)
+        kvs, pair_its = scanned_pairs(Summaries(repo, folder, fuse_generators=False).of(PO.fi))
     if not kvs:
         raise AnalysisError("parse_options_header: no option is stored")
-    pair_its = [x for x in _its(walk(tuple((o.term, o.conds) for o in kvs))) if coll_items(x[1]) and all(i[0] == "tuple" and len(i[1]) == 2 for _, i in coll_items(x[1]))]  # type: ignore[union-attr]
     if len(pair_its) != 1:
         raise AnalysisError(f"parse_options_header: expected one loop over the scanned (key, value) pairs, found {len(pair_its)}")
     E = pair_its[0]
@@ -283,12 +293,16 @@ def run(ctx: Ctx) -> None:
     PL = S("http.parse_list_header")
     E = _element_term(PL, "urllib.request.parse_http_list(value)", lambda x: x[0] == "call" and _gfq(x[1]) == "urllib.request.parse_http_list" and len(x[2]) == 1 and x[2][0][0] == "p")
     items = _item_outcomes(PL, lambda i: True)
+    if not items:
+        raise AnalysisError("parse_list_header: no item is seen stored in the returned list")
     smp3 = [x for x in smp if len(x) <= 3]
     res = [(f'"{s_}"', _pick_value(conc, items, {E: f'"{s_}"'}), s_) for s_ in [""] + smp3] + [(s_, _pick_value(conc, items, {E: s_}), s_) for s_ in toks]
     ctx.ob("R6.2", "parse_list_header splits with parse_http_list and strips quotes", all(g == w_ for _, g, w_ in res), f"item kept for an element of parse_http_list (quotes kept, escapes already removed); {_first_bad(res)}", PL.fi, PL.fi.node, "list parser")
     PD = S("http.parse_dict_header")
     E = _element_term(PD, "parse_list_header(value)", lambda x: x[0] == "call" and _gfq(x[1]) == "werkzeug.http.parse_list_header" and len(x[2]) == 1 and x[2][0][0] == "p")
     kvs = _item_outcomes(PD, lambda i: i[0] == "kv")
+    if not kvs:
+        raise AnalysisError("parse_dict_header: no entry is seen stored in the returned mapping")
     res = [(f'k="{s_}"', _pick_value(conc, kvs, {E: f'k="{s_}"'}), ("k", s_)) for s_ in [""] + smp3]
     res += [(f"k={s_}", _pick_value(conc, kvs, {E: f"k={s_}"}), ("k", s_)) for s_ in toks] + [("k", _pick_value(conc, kvs, {E: "k"}), ("k", None))]
     ctx.ob("R6.2", "parse_dict_header builds on parse_list_header and partitions at the first '='", all(g == w_ for _, g, w_ in res), f"entry stored for an item of parse_list_header; {_first_bad(res)}", PD.fi, PD.fi.node, "dict parser")
@@ -962,6 +976,44 @@ def _group_index(t_: Term) -> int | None:
     return None
 
 
+def _group_truth(a: Term, tr: bool) -> tuple[int, bool] | None:
+    """(regex group, present?) stated by a condition atom with truth value tr: `g` / `g is None` / `bool(g)`
+    (a group that took part in the match is a non-empty text for the W/ marker and, in the property's domain of
+    non-empty tags, for the tag groups)."""
+    gi = _group_index(a)
+    if gi is not None:
+        return gi, tr
+    if a[0] == "cmp" and a[1] == "is" and NONE in (a[2], a[3]):
+        gi = _group_index(a[3] if a[2] == NONE else a[2])
+        if gi is not None:
+            return gi, not tr
+    return None
+
+
+def _mentions_group(a: Term) -> bool:
+    return any(_group_index(x) is not None or (x[0] == "meth" and x[1] in ("groupdict", "group")) for x in walk(a))
+
+
+def _star_comparisons(conds: t.Iterable[tuple[Term, bool]]) -> list[Term]:
+    """what is compared with '*' in the conditions that hold: `x == '*'`, `'*' in [x ...]`, `any(x == '*' ...)`"""
+    out: list[Term] = []
+
+    def of_cmp(a: Term) -> None:
+        if a[0] == "cmp" and a[1] == "==" and C("*") in (a[2], a[3]):
+            out.append(a[3] if a[2] == C("*") else a[2])
+
+    for a, tr in conds:
+        if not tr:
+            continue
+        of_cmp(a)
+        if a[0] == "call" and _gfq(a[1]) == "builtins.any" and len(a[2]) == 1 and coll_items(a[2][0]) is not None:
+            for _, it_ in coll_items(a[2][0]):  # type: ignore[union-attr]
+                of_cmp(it_)
+        if a[0] == "cmp" and a[1] == "in" and a[2] == C("*") and coll_items(a[3]) is not None:
+            out.extend(it_ for _, it_ in coll_items(a[3]))  # type: ignore[union-attr]
+    return out
+
+
 def _etag_routing(PE: Summary) -> tuple[bool, str]:
     """which regex group ends up in which list, under which conditions; and what is compared with '*'."""
     ok = True
@@ -981,25 +1033,33 @@ def _etag_routing(PE: Summary) -> tuple[bool, str]:
                 gi = _group_index(it_)
                 if gi not in (2, 3):
                     raise AnalysisError(f"parse_etags: item of the {role} list is not a regex group: {show(it_)}")
-                truth = {_group_index(a): tr for a, tr in cs if _group_index(a) is not None}
+                truth = dict(gt for a, tr in cs for gt in [_group_truth(a, tr)] if gt is not None)
                 good = truth.get(1) == (role == "weak") and truth.get(2) == (gi == 2)
                 seen.add((role, gi))
                 if not good:
+                    # a condition on the match that is not read as "group n present / absent" is not a verdict
+                    odd = [a for a, tr in cs if _group_truth(a, tr) is None and _mentions_group(a) and not (a[0] == "cmp" and a[1] == "==" and C("*") in (a[2], a[3]))]
+                    if odd and (truth.get(1) is None or truth.get(2) is None):
+                        raise AnalysisError(f"parse_etags: the {role} list is filled under a condition on the regex match that is not understood: {show(odd[0])[:120]}")
                     ok = False
                     facts.append(f"{role} list receives group {gi} under `{show_conds(cs)}`")
     missing = {("strong", 2), ("strong", 3), ("weak", 2), ("weak", 3)} - seen
     if missing:
+        if PE.lost:
+            raise AnalysisError(f"parse_etags: tags are stored into a container that is not followed ({PE.lost[0]}); never seen stored: {sorted(missing)}")
         ok = False
         facts.append(f"never stored: {sorted(missing)}")
     if ok:
         facts.append("group 2 (quoted text) is kept when present, else group 3; group 1 (W/) selects the weak list")
     star_ok = True
     for o, _ in stars:
-        cmps = [a for a, tr in o.conds if tr and a[0] == "cmp" and a[1] == "==" and C("*") in (a[2], a[3])]
+        cmps = _star_comparisons(o.conds)
         if not cmps:
-            raise AnalysisError("parse_etags: star result without a comparison with '*'")
-        for a in cmps:
-            other = a[3] if a[2] == C("*") else a[2]
+            if any(x[0] in ("it", "v") or (x[0] == "call" and _gfq(x[1]) not in ("builtins.len", "builtins.bool")) for a, _ in o.conds for x in walk(a)):
+                raise AnalysisError("parse_etags: star result without a comparison with '*'")
+            star_ok = False
+            facts.append(f"the star result is returned under `{show_conds(o.conds)[:160]}`, which compares nothing with '*'")
+        for other in cmps:
             if _group_index(other) != 3:
                 star_ok = False
                 facts.append(f"'*' is compared with {show(other)}")
